@@ -232,3 +232,74 @@ package ctree
 //@   props C09 C12
 //@   requires t != nil && TreeWf() && f != nil
 //@   modifies ghost visitedT, ghost visits, ghost lastVisited
+
+// ---- deletes -------------------------------------------------------------------
+//@ ghost condCalls int
+//@ ghost delCalls int
+//@ func param condition in (*Tree).internalDelete (v)
+//@   effect condCalls := condCalls + 1
+//@ func param f in (*Tree).internalDelete (v)
+//@   effect delCalls := delCalls + 1
+
+// internalDelete: a delete step. It selects what a query step selects: the node
+// itself iff it is a leaf and the remaining path is empty or a single glob (then
+// f is called iff condition holds), every child for a glob / exhausted path,
+// the named child otherwise. A child is unlinked iff it reported itself
+// deletable, and the node reports itself deletable iff it was a deleted leaf or
+// ends up without children. Runs under the ROOT's write lock only.
+//@ func (*Tree).internalDelete
+//@   props C09 C10 C02 C12
+//@   requires t != nil && TreeWf() && condition != nil && f != nil
+//@   requires [node-lock-held C10] wheld(t.mu)
+//@   modifies ghost condCalls, ghost delCalls, mapheap(Kids(t))
+//@   invariant 0: [glob-step C09] TreeWf() && t.leafBranch == old(t.leafBranch) && (arr(allLeaves) == 0 || fresh(allLeaves))
+//@   invariant 1: (arr(allLeaves) == 0 || fresh(allLeaves)) && TreeWf() && t.leafBranch == old(t.leafBranch)
+//@   invariant 2: TreeWf() && t.leafBranch == old(t.leafBranch) && (arr(allLeaves) == 0 || fresh(allLeaves))
+//@   assert at call param condition#0: [leaf-selected-as-by-query C09] IsLeaf(t) && len(subpath) == 0 && arg0 == t.leafBranch
+//@   assert at call param f#0: [callback-with-the-deleted-value C09 C03] IsLeaf(t) && arg0 == t.leafBranch
+//@   assert at builtin delete#0: [unlink-only-deletable-child C09] del && arg1 == k
+//@   assert at builtin delete#1: [unlink-only-deletable-child C09] delBr && arg1 == subpath[0]
+//@   ensures [tree-stays-wf] TreeWf() && t.leafBranch == old(t.leafBranch) && (arr(res1) == 0 || fresh(res1))
+//@   ensures [branch-deletable-iff-empty C09 C03] old(IsBranch(t)) && (len(subpath) == 0 || subpath[0] == "*" || old(has(Kids(t), subpath[0]))) ==> (res0 <==> len(Kids(t)) == 0)
+//@   ensures [no-such-child-deletes-nothing C09] old(IsBranch(t)) && len(subpath) > 0 && subpath[0] != "*" && !old(has(Kids(t), subpath[0])) ==> !res0 && len(res1) == 0
+//@   ensures [through-a-leaf-deletes-nothing C09] !old(IsBranch(t)) && len(subpath) > 0 && !(len(subpath) == 1 && subpath[0] == "*") ==> !res0 && len(res1) == 0 && delCalls == old(delCalls)
+//@   ensures [empty-node-deletes-nothing C09] old(t.leafBranch) == nil ==> !res0 && len(res1) == 0 && delCalls == old(delCalls) && condCalls == old(condCalls)
+//@   ensures [leaf-deleted-iff-condition C09 C02] old(IsLeaf(t)) && (len(subpath) == 0 || (len(subpath) == 1 && subpath[0] == "*")) ==> condCalls == old(condCalls) + 1 && (res0 <==> delCalls == old(delCalls) + 1)
+
+// The always-true condition and the do-nothing callback of the plain deletes.
+//@ func (*Tree).Delete$1
+//@   props C09 C12
+//@   ensures res0
+//@ func (*Tree).DeleteConditional$1
+//@   props C09 C12
+
+// WalkDeleted / DeleteConditional / Delete: take the root's write lock, run the
+// delete step, and reset the root to empty iff the step reported it deletable.
+//@ func (*Tree).WalkDeleted
+//@   props C09 C10 C02 C12
+//@   locks t
+//@   requires t != nil && TreeWf() && condition != nil && f != nil
+//@   modifies ghost condCalls, ghost delCalls, mapheap(Kids(t)), t.leafBranch
+//@   assert at call (*Tree).internalDelete#0: [delete-step-on-the-root-under-its-write-lock C09 C10] wheld(t.mu) && arg0 == t && arg1 == path && !arg4
+//@   ensures [tree-stays-wf] TreeWf()
+//@ func param condition in (*Tree).WalkDeleted (v)
+//@   effect condCalls := condCalls + 1
+//@ func param f in (*Tree).WalkDeleted (v)
+//@   effect delCalls := delCalls + 1
+//@ func param condition in (*Tree).DeleteConditional (v)
+//@   effect condCalls := condCalls + 1
+
+//@ func (*Tree).DeleteConditional
+//@   props C09 C10 C12
+//@   locks t
+//@   requires t != nil && TreeWf() && condition != nil
+//@   modifies ghost condCalls, ghost delCalls, mapheap(Kids(t)), t.leafBranch
+//@   assert at call (*Tree).internalDelete#0: [delete-step-on-the-root-under-its-write-lock C09 C10] wheld(t.mu) && arg0 == t && arg1 == subpath && arg4
+//@   ensures [tree-stays-wf] TreeWf()
+//@   ensures [empty-tree-deletes-nothing C09] old(t.leafBranch) == nil ==> len(res0) == 0 && t.leafBranch == nil
+
+//@ func (*Tree).Delete
+//@   props C09 C14 C12
+//@   requires t != nil && TreeWf()
+//@   modifies ghost condCalls, ghost delCalls, mapheap(Kids(t)), t.leafBranch
+//@   ensures [tree-stays-wf] TreeWf()
